@@ -345,7 +345,7 @@ func govcTexts() []interface{} {
 	items := []string{"", "<L>", "<L[2] <A \"x\"> <U1 1>>", "<A \"a b\" 0x41 66>", "<A[2..] s>", "<A[3] \"abc\">", "<A[1] \"abc\">", "<A \"C:\\\\path\">", "<A \"q\\\"\">",
 		"<B 0b1 0xff 7>", "<B 256>", "<B 1.5>", "<B 1e2 x>", "<BOOLEAN T f>", "<BOOLEAN 1>", "<I1 -128 127>", "<I1 128>", "<I2 0x7fff -0X8000>", "<I8 -9223372036854775808>", "<I8 9223372036854775808>",
 		"<U1 255 0b11>", "<U1 -1>", "<U8 18446744073709551615>", "<U8 18446744073709551616>", "<F4 1.5 -2e3 .5>", "<F4 1e39>", "<F8 1e400>", "<F8 0x1p3>", "<U2[2] 1 2 v>", "<L v1 ... >", "<L <U1 a> ... <L <I1 b> ...[1]>>",
-		"<L[1] <L[0]>>", "<U1[1..2] 1 2 3>", "<U1[..1] 1 2>", "<A[9999999999] x>", "<L <A[9999999999] x> <A[9999999999] x>>", "<U1 1 // c\\n>", "<X 1>", "<U1 1", "<U1 1x>", "<A \"unterminated>", "<A \"a\nb\">"}
+		"<L[1] <L[0]>>", "<U1[1..2] 1 2 3>", "<U1[..1] 1 2>", "<A[9999999999] x>", "<L <A[9999999999] x> <A[9999999999] x>>", "<U1 1 // c\\n>", "<X 1>", "<U1 1", "<B 1", "<B", "<BOOLEAN T", "<A \"x\"", "<F4 1.5", "<I2 -1", "<L <B 0x1", "<L <U1 1> <A", "<U1 1x>", "<A \"unterminated>", "<A \"a\nb\">"}
 	heads := []string{"S1F1 W H->E Name", "S1F2 H<-E", "s6f11 w h<->e n2", "S127F255 [W]", "S128F1", "S1F256", "S1F2 W", "S1F1 \v", "S1F1 H->E \u00a0x", "S1F1 H->E a//b", "Name S1F1", "S1F1 // comment \u00e0", "S1F1 H->E // c\v", ""}
 	var out []interface{}
 	for i, h := range heads {
@@ -355,7 +355,7 @@ func govcTexts() []interface{} {
 			}
 		}
 	}
-	out = append(out, "", ".", "S1F1", "S1F1.S2F2 W.", "S1F1 W\n<U1 v>\n.\nS1F3 W\n<U1 v>\n.", "S1F1\n<L a ...>.S1F3\n<L b ...>.", "\xff\xfe", "S1F1\n<A \"\xff\">.", "S1F1 <", "S9999999999999999999F1.")
+	out = append(out, "", ".", "S1F1", "S1F1.S2F2 W.", "S1F1 W\n<U1 v>\n.\nS1F3 W\n<U1 v>\n.", "S1F1\n<L a ...>.S1F3\n<L b ...>.", "\xff\xfe", "S1F1\n<A \"\xff\">.", "S1F1 <", "S9999999999999999999F1.", "S1F1 <B", "S1F1 H->E name <B 1", "S1F1 H->E name <L <B 0x1 2", "S1F1 <A \"x\"", "S1F1 <U1 1 2", "S1F1 <BOOLEAN T", "S1F1 <F8 1", "S1F1 <L <I4 1>", "S1F1 <A[2", "S1F1 <A[1..")
 	return out
 }
 
